@@ -30,6 +30,12 @@ type MsgSpec struct {
 	// size 32, a small body size) — content must never be interpreted.
 	Pattern string `json:"pattern,omitempty"`
 	VerHex  string `json:"ver_hex,omitempty"` // version bytes, hex (may contain NUL, 0x80, 0xff)
+	// Entries > 1 (kind list, C06 only): the nested Struct holds this many map
+	// entries. The wire ORDER of map entries is not fixed, so two encodings of
+	// such a message may differ byte-wise while being the same message; C06
+	// compares lengths and decoded contents, never two encodings (C07, which
+	// compares emitted bytes with a reference frame, keeps single-entry maps).
+	Entries int `json:"entries,omitempty"`
 }
 
 func (m MsgSpec) Version() string {
@@ -127,9 +133,11 @@ func (m MsgSpec) buildList() *structpb.ListValue {
 		case 1:
 			// (one entry only: the wire order of a map's entries is not fixed, and
 			// two encodings of one message must be the same bytes)
-			l.Values = append(l.Values, &structpb.Value{Kind: &structpb.Value_StructValue{StructValue: &structpb.Struct{Fields: map[string]*structpb.Value{
-				"k": str(chunk),
-			}}}})
+			fields := map[string]*structpb.Value{"k": str(chunk)}
+			for e := 1; e < m.Entries; e++ {
+				fields[fmt.Sprintf("k%d", e)] = str(fmt.Sprintf("v%d", e*e))
+			}
+			l.Values = append(l.Values, &structpb.Value{Kind: &structpb.Value_StructValue{StructValue: &structpb.Struct{Fields: fields}}})
 		default:
 			l.Values = append(l.Values, &structpb.Value{Kind: &structpb.Value_ListValue{ListValue: &structpb.ListValue{Values: []*structpb.Value{
 				str(chunk), {Kind: &structpb.Value_BoolValue{BoolValue: true}}, {Kind: &structpb.Value_NumberValue{NumberValue: float64(len(chunk))}},
@@ -232,7 +240,7 @@ func (m MsgSpec) payload() []byte {
 // sections before anything is encoded.
 func (m MsgSpec) bodyBound() int {
 	if m.Kind == "list" {
-		return m.Len + 160
+		return m.Len + 160 + 2*20*m.Entries
 	}
 	return m.Len + 16
 }
